@@ -133,6 +133,34 @@ def run(ctx):
                    f'reviewed as benign)', ok,
                    f'{[qualname_of(f) for f in compound]} read and then write it without a lock (check-then-act)')
     ctx.floor('C15.R1', n, 8, 'run-time tables')
+    # … the same through an alias: `v = TABLE[k]` followed by a test of v and a mutation of v (`v.pop() if v else make()`) is a
+    # check-then-act on shared state although every single operation is atomic
+    MUT = {'append', 'pop', 'add', 'remove', 'discard', 'clear', 'update', 'extend', 'insert', 'popitem', 'setdefault', 'appendleft', 'popleft'}
+    n_alias = 0
+    for q, (mod, st_) in sorted(tables.items()):
+        name = q.rsplit('.', 1)[1]
+        for fn in [x for x in ast.walk(mod.tree) if isinstance(x, (ast.FunctionDef, ast.AsyncFunctionDef))]:
+            aliases = {}
+            for a in walk_shallow(fn):
+                if isinstance(a, ast.Assign) and len(a.targets) == 1 and isinstance(a.targets[0], ast.Name):
+                    v = a.value
+                    if (isinstance(v, ast.Subscript) and dotted(v.value) == name) or (
+                            isinstance(v, ast.Call) and isinstance(v.func, ast.Attribute) and dotted(v.func.value) == name
+                            and v.func.attr in ('get', 'setdefault')):
+                        aliases[a.targets[0].id] = a
+            for al, a in aliases.items():
+                muts = [c for c in walk_shallow(fn) if isinstance(c, ast.Call) and isinstance(c.func, ast.Attribute)
+                        and dotted(c.func.value) == al and c.func.attr in MUT]
+                tests = [t for t in walk_shallow(fn) if isinstance(t, (ast.If, ast.IfExp, ast.While))
+                         and any(isinstance(x, ast.Name) and x.id == al for x in ast.walk(t.test))]
+                if not (muts and tests):
+                    continue
+                n_alias += 1
+                locked = all(_lock_of(c, locks, mod) for c in muts) and all(_lock_of(t, locks, mod) for t in tests)
+                ctx.ob('C15.R1', f'lock-free-alias:{q}:{qualname_of(fn)}', mod.where(muts[0]),
+                       f'an element of the shared table {name} is tested and then mutated under one lock (or the table is reviewed as benign)',
+                       locked or q in BENIGN_COMPOUND,
+                       f'`{norm(tests[0].test)[:50]}` … `{norm(muts[0])[:50]}` without a lock: two threads pass the test before either acts')
     # the import-hook registry lives in attributes of the claw_state singleton rather than in module-level
     # names: same lock-set condition, decided by the rule shared with C06.R1
     from .c06 import lock_discipline
